@@ -154,6 +154,7 @@ def run(run: common.Run):
     if run.only is None and not getattr(run, 'hung', False):
         cli_compare_stats_faults(run, tmp, pair, mbm)
         reprojected_inputs_closed(run, tmp)
+        corrupted_tile_leg(run, tmp)
 
 
 def cli_faults(run, tmp, pair, bsig, model, kernel, mbm, njobs):
@@ -356,6 +357,112 @@ def reprojected_inputs_closed(run, tmp):
             elif left:
                 run.fail(case, f'after the `with` block ({"failed" if fail else "successful"} run) the process still holds open descriptors of {left}',
                          signature=dict(kind='leak-input', op='vrt'))
+
+
+def corrupted_tile_leg(run, tmp):
+    """
+    A block that cannot be read at the GDAL level (the compressed bytes of one tile zeroed in the file - a truncated or damaged
+    image): the failure must surface exactly like an injected one - stats raises and `homonim stats` exits non-zero for a damaged
+    parameter image; fuse and compare raise for a damaged source.  (Checked first with plain rasterio that the tile is unreadable.)
+    """
+    import shutil
+    import rasterio as rio
+    import rasters
+    from click.testing import CliRunner
+    from homonim import cli, RasterFuse, RasterCompare, ParamStats
+    from homonim.enums import Model
+
+    def corrupt(path, band, col, row):
+        with rio.open(path) as ds:
+            off = ds.get_tag_item(f'BLOCK_OFFSET_{col}_{row}', 'TIFF', bidx=band)
+            size = ds.get_tag_item(f'BLOCK_SIZE_{col}_{row}', 'TIFF', bidx=band)
+            win = ds.block_window(band, row, col)
+        if off is None or size is None:
+            return None
+        with open(path, 'r+b') as f:
+            f.seek(int(off))
+            f.write(b'\x00' * int(size))
+        try:
+            with rio.open(path) as ds:
+                ds.read(band, window=win)
+            return None     # still readable: nothing to test
+        except Exception:
+            return win
+    g_r = rasters.Grid(8 * 6500, 8 * 2500, 16, 16, 48, 48)
+    g_s = rasters.Grid(8 * 6500, 8 * 2500, 8, 8, 96, 96)
+    rng = run.rng('corrupt')
+    s = np.array([[[rng.randint(20, 200) for _ in range(g_s.w)] for _ in range(g_s.h)]], float)
+    r = np.array([[[rng.randint(30, 150) for _ in range(g_r.w)] for _ in range(g_r.h)]], float)
+    pair = fusion.write_pair(tmp, 'c09bad', g_s, g_r, s, r, None, None)
+    prof = dict(creation_options=dict(tiled=True, blockxsize=16, blockysize=16, compress='deflate'))
+    res = fusion.run_fuse(pair.src_path, pair.ref_path, tmp / 'c09bad_out.tif', model='gain-offset', kernel_shape=(3, 3), threads=1,
+                          param=True, out_profile=prof)
+    # (a) a damaged parameter image
+    bad_param = tmp / 'c09bad_PARAM_damaged.tif'
+    shutil.copy(res.param_path, bad_param)
+    if corrupt(bad_param, 2, 1, 1) is None:
+        run.hist['corrupted tile: could not be set up (skipped)'] += 1
+    else:
+        for T in (1, 3):
+            case = dict(i=7 * 10**6 + T, op='stats on a parameter image with an unreadable tile', threads=T)
+            raised = None
+            try:
+                with warnings.catch_warnings():
+                    warnings.simplefilter('ignore')
+                    with ParamStats(bad_param) as ps:
+                        fin, rr = sc.run_with_watchdog(lambda: ps.stats(threads=T), timeout=60)
+                raised = isinstance(rr, BaseException)
+            except Exception:
+                raised, fin = True, True
+            run.evaluations += 1
+            run.hist['unreadable-tile runs'] += 1
+            run.nontrivial.add(('corrupt-param', T))
+            if not fin:
+                run.fail(case, 'stats hung on an unreadable tile', signature=dict(kind='hang', op='corrupt'))
+            elif not raised:
+                run.fail(case, 'stats returned normally although a tile of the parameter image cannot be read (its statistics then cover '
+                         'substituted zeros)', signature=dict(kind='swallowed', op='corrupt-param'))
+        cres = CliRunner().invoke(cli.cli, ['stats', str(bad_param)])
+        run.evaluations += 1
+        if cres.exit_code == 0:
+            run.fail(dict(i=7 * 10**6 + 9, op='homonim stats on a parameter image with an unreadable tile'),
+                     '`homonim stats` exited 0 although a tile cannot be read', signature=dict(kind='cli-exit-zero', op='corrupt-param'))
+    # (b) a damaged source image (written tiled + compressed so that a single tile can be damaged)
+    bad_src = tmp / 'c09bad_src_damaged.tif'
+    with rio.open(pair.src_path) as ds:
+        prof2 = dict(ds.profile)
+        data = ds.read()
+    prof2.update(tiled=True, blockxsize=32, blockysize=32, compress='deflate')
+    with rio.open(bad_src, 'w', **prof2) as ds:
+        ds.write(data)
+    if corrupt(bad_src, 1, 1, 1) is None:
+        run.hist['corrupted tile: could not be set up (skipped)'] += 1
+        return
+    for cls in (RasterFuse, RasterCompare):
+        for T in (1, 2):
+            case = dict(i=7 * 10**6 + 20 + 2 * (cls is RasterCompare) + T, op='source with an unreadable tile', cls=cls.__name__, threads=T)
+            rr = None
+            try:
+                with warnings.catch_warnings():
+                    warnings.simplefilter('ignore')
+                    with cls(bad_src, pair.ref_path) as obj:
+                        if cls is RasterFuse:
+                            call = lambda: obj.process(tmp / 'c09bad_o.tif', Model.gain, (1, 1), overwrite=True, build_ovw=False,
+                                                       block_config=dict(threads=T, max_block_mem=2e-3))
+                        else:
+                            call = lambda: obj.process(threads=T, max_block_mem=2e-3)
+                        fin, rr = sc.run_with_watchdog(call, timeout=60)
+                raised = isinstance(rr, BaseException)
+            except Exception:
+                raised, fin = True, True
+            run.evaluations += 1
+            run.hist['unreadable-tile runs'] += 1
+            run.nontrivial.add(('corrupt-src', cls.__name__, T))
+            if not fin:
+                run.fail(case, f'{cls.__name__} hung on an unreadable source tile', signature=dict(kind='hang', op='corrupt'))
+            elif not raised:
+                run.fail(case, f'{cls.__name__}.process returned normally although a tile of the source cannot be read',
+                         signature=dict(kind='swallowed', op='corrupt-src'))
 
 
 def persistent_read_failure(run, tmp, pair, mbm):
